@@ -35,10 +35,11 @@ KxAll    == KxCert \cup KxCertKe \cup KxPsk \cup KxPskKe \cup {"tls13", "null"}
 \* negotiated facts that steer the flow; fixed when the hello is processed
 Cfg == [kx : KxAll, resumed : BOOLEAN, cauth : BOOLEAN, tick : BOOLEAN,
         psk13 : BOOLEAN, early : BOOLEAN, fam : {"L", "T13"}, dtls : BOOLEAN,
+        limbo : BOOLEAN,     \* client offered a ticket and ServerHello does not say whether it was taken (RFC 5077 3.4)
         retry : BOOLEAN]     \* retry: this hello is answered by HelloRetryRequest / HelloVerifyRequest
 
 NoCfg == [kx |-> "null", resumed |-> FALSE, cauth |-> FALSE, tick |-> FALSE,
-          psk13 |-> FALSE, early |-> FALSE, fam |-> "L", dtls |-> FALSE, retry |-> FALSE]
+          psk13 |-> FALSE, early |-> FALSE, fam |-> "L", dtls |-> FALSE, limbo |-> FALSE, retry |-> FALSE]
 
 \* why a session is dead
 DeadKinds == {"no", "fatalsent", "fatalrcvd", "error", "closed"}
@@ -174,6 +175,7 @@ Choices == {"good", "bad", "rlfail", "part"}
 Verdict(s, r) ==
     IF ~ReadSecure(s) THEN
         IF r.sealed THEN "garbage"      \* ciphertext read as plaintext
+        ELSE IF s.fam = "T13" /\ r.it = "ccs" THEN "ignore"   \* the TLS 1.3 decoder ignores CCS at any time
         ELSE "plain"
     ELSE
         IF r.sealed /\ r.auth THEN "ok"
@@ -243,7 +245,8 @@ RecvHs(s, r, c, ch) ==
                    ELSE IF hs2 = "FINISHED" /\ (s.role = "C" \/ cc.resumed) THEN "sec"   \* own CCS+Finished flight
                    ELSE IF hs2 = "DONE" THEN "sec"
                    ELSE s.wr
-            cc2 == [cc EXCEPT !.cauth = cc.cauth \/ (s.role = "C" /\ m = "CERTIFICATE_REQUEST"), !.retry = FALSE]
+            cc2 == [cc EXCEPT !.cauth = cc.cauth \/ (s.role = "C" /\ m = "CERTIFICATE_REQUEST"), !.retry = FALSE,
+                              !.limbo = cc.limbo /\ isHello]
             s2 == [s EXCEPT !.hs = hs2, !.fam = fam2, !.cfg = cc2, !.rd = rd2, !.wr = wr2,
                             !.helloDone = s.helloDone \/ isHello,
                             !.haveCookie = s.haveCookie \/ (m = "HELLO_VERIFY_REQUEST"),
@@ -261,6 +264,13 @@ RecvCcs(s, r, ch) ==
     ELSE IF s.hs = "FINISHED" /\ ~ReadSecure(s) THEN
         Result([s EXCEPT !.rd = "sec", !.recvSeq = Append(s.recvSeq, "CCS"),
                          !.tampered = s.tampered \/ ~r.gen], <<>>, <<>>, 0, FALSE, TRUE)
+    ELSE IF s.role = "C" /\ s.cfg.limbo /\ ~ReadSecure(s) /\ s.hs \in {"CERTIFICATE", "SERVER_KEY_EXCHANGE"} THEN
+        \* sslDecode.c "SESS_TICKET_STATE_IN_LIMBO": the server took the ticket without saying so; its
+        \* ChangeCipherSpec right after ServerHello is the first sign that this is a resumed handshake
+        Result([s EXCEPT !.rd = "sec", !.hs = "FINISHED", !.wr = "sec",
+                         !.cfg = [s.cfg EXCEPT !.resumed = TRUE, !.limbo = FALSE],
+                         !.recvSeq = Append(s.recvSeq, "CCS"),
+                         !.tampered = s.tampered \/ ~r.gen], <<>>, <<>>, 0, FALSE, TRUE)
     ELSE Fatal(s, <<>>)
 
 (* sslDecode.c:1648-1664, tls13Decode.c:457-487 *)
@@ -275,17 +285,21 @@ RecvApp(s, r, v) ==
                <<>>, <<>>, 1, FALSE, TRUE)
     ELSE Fatal(s, <<>>)
 
-RecvAlert(s, r, ch) ==
-    IF ~(r.gen \/ ch = "good") THEN Fatal(s, <<>>)          \* malformed alert
-    ELSE IF r.adesc = 0 THEN Result(Kill(s, "closed"), <<>>, <<>>, 0, FALSE, TRUE)
-    ELSE IF r.alvl = 2 THEN Result(Kill(s, "fatalrcvd"), <<>>, <<>>, 0, FALSE, TRUE)
-    ELSE Result(s, <<>>, <<>>, 0, FALSE, TRUE)               \* warning: reported, session lives
+\* rp: whether the record went through the record-protection stage (the TLS 1.3 plaintext-alert
+\* shortcut does not)
+RecvAlert(s, r, ch, rp) ==
+    IF ~(r.gen \/ ch = "good") THEN Result(Kill(s, "fatalsent"), <<>>, <<>>, 0, TRUE, rp)   \* malformed alert
+    ELSE IF r.adesc = 0 THEN Result(Kill(s, "closed"), <<>>, <<>>, 0, FALSE, rp)
+    \* RFC 8446 6: in TLS 1.3 every alert other than close_notify ends the connection
+    ELSE IF r.alvl = 2 \/ s.fam = "T13" THEN Result(Kill(s, "fatalrcvd"), <<>>, <<>>, 0, FALSE, rp)
+    ELSE Result(s, <<>>, <<>>, 0, FALSE, rp)                 \* warning: reported, session lives
 
 Dispatch(s, r, c, ch, v) ==
     CASE r.it = "hs" -> RecvHs(s, r, c, ch)
       [] r.it = "ccs" -> RecvCcs(s, r, ch)
       [] r.it = "app" -> RecvApp(s, r, v)
-      [] r.it = "alert" -> RecvAlert(s, r, ch)
+      \* tls13Decode.c handles an alert record shorter than 2 + tag before record protection
+      [] r.it = "alert" -> RecvAlert(s, r, ch, ~(s.fam = "T13" /\ ~r.sealed))
       [] OTHER -> Fatal(s, <<>>)
 
 \* the record (or the message in it) is incomplete: it is buffered; from now on the byte stream and the
@@ -298,7 +312,8 @@ AllowedChoices(s, r) ==
     LET v == Verdict(s, r) IN
     IF s.desync THEN {"rlfail", "part"}
     ELSE IF v = "bad" THEN (IF r.frag THEN {"good", "part"} ELSE {"good"})
-    ELSE IF v \in {"ok", "ignore", "plainalert"} THEN (IF r.gen THEN {"good"} ELSE {"good", "bad"})
+    ELSE IF v \in {"ignore", "plainalert"} THEN (IF r.gen THEN {"good"} ELSE IF r.frag THEN {"good", "bad", "part"} ELSE {"good", "bad"})
+    ELSE IF v = "ok" THEN (IF r.gen THEN {"good"} ELSE {"good", "bad"})
     ELSE IF v = "garbage" THEN {"rlfail", "part", "bad"}
     ELSE IF r.free THEN Choices
     ELSE {"good"}
@@ -311,8 +326,10 @@ Recv(s, r, c, ch) ==
         IF ch = "part" THEN Pending(s, FALSE)
         ELSE [Result(Kill(s, "fatalsent"), <<>>, <<>>, 0, TRUE, FALSE) EXCEPT !.loose = TRUE]
     ELSE
-    CASE v = "ignore" -> Result(s, <<>>, <<>>, 0, FALSE, TRUE)
-      [] v = "plainalert" -> RecvAlert(s, r, ch)
+    CASE v \in {"ignore", "plainalert"} /\ ch = "part" -> Pending(s, FALSE)
+      [] v = "ignore" -> IF r.gen \/ ch = "good" THEN Result(s, <<>>, <<>>, 0, FALSE, FALSE)
+                         ELSE Result(Kill(s, "fatalsent"), <<>>, <<>>, 0, TRUE, FALSE)   \* CCS body not 0x01
+      [] v = "plainalert" -> RecvAlert(s, r, ch, FALSE)
       [] v = "bad" ->
            \* fails authentication: TLS dies with a fatal alert; DTLS may also silently discard.
            \* (a record whose length field was raised is simply incomplete: the endpoint waits)
